@@ -174,6 +174,7 @@ var effContracts = map[string]effContract{
 	"strconv.FormatInt":                 {pure: true},
 	"strconv.FormatUint":                {pure: true},
 	"strings.Split":                     {pure: true},
+	"strings.SplitN":                    {pure: true},
 	"strings.Join":                      {pure: true},
 	"strings.Repeat":                    {pure: true},
 	"strings.TrimPrefix":                {pure: true},
